@@ -106,7 +106,7 @@ func vfC42IClass(n int) int {
 }
 
 type vfC42IOp struct {
-	Kind    int // 0 get, 1 mutate, 2 put, 3 gc / yield, 4 put followed by a relative get
+	Kind    int // 0 get, 1 mutate, 2 put, 3 gc / yield, 4 put followed by a relative get, 5 capacity-changing mutation + put + relative get
 	LenMode int
 	Len     int
 	Rel     int
@@ -130,6 +130,8 @@ func (op vfC42IOp) String() string {
 		return fmt.Sprintf("put #%d", op.Slot)
 	case 4:
 		return fmt.Sprintf("put #%d+get rel%d", op.Slot, op.Rel)
+	case 5:
+		return fmt.Sprintf("mut #%d %s(%d,%d)+put+get rel%d", op.Slot, vfC42IMutNames[op.Mut], op.A, op.B, op.Rel)
 	default:
 		return "gc"
 	}
@@ -140,14 +142,19 @@ func vfC42IDrawOp(rt *rapid.T) vfC42IOp {
 	// rapid's integer generators are biased towards small values and the upper bound, so the kind is taken from a
 	// table indexed by r mod 16 (every residue is reachable from small r) instead of from contiguous ranges.
 	r := rapid.IntRange(0, 255).Draw(rt, "kind")
-	op.Kind = [16]int{4, 1, 0, 2, 0, 1, 2, 4, 0, 1, 2, 4, 0, 1, 2, 1}[r%16]
+	op.Kind = [16]int{4, 1, 0, 5, 2, 1, 5, 4, 0, 1, 2, 5, 0, 1, 2, 1}[r%16]
 	if r == 137 {
 		op.Kind = 3 // runtime.GC (sequential) / Gosched (concurrent): rare, a GC cycle costs as much as many cases
 	}
 	op.Slot = rapid.IntRange(0, 7).Draw(rt, "slot")
+	if op.Kind == 5 {
+		op.Mut = rapid.SampledFrom([]int{8, 3, 5, 4, 8, 3}).Draw(rt, "capmut")
+		op.A = rapid.IntRange(0, 1<<20).Draw(rt, "a")
+		op.B = rapid.IntRange(0, 1<<20).Draw(rt, "b")
+	}
 	switch op.Kind {
-	case 0, 4:
-		if op.Kind == 4 || rapid.IntRange(0, 1).Draw(rt, "rel") == 0 {
+	case 0, 4, 5:
+		if op.Kind >= 4 || rapid.IntRange(0, 1).Draw(rt, "rel") == 0 {
 			op.LenMode = 1
 			// 0,1,3,4 can be served by the buffer just put (3,4 only if its capacity is a power of two); the rest must not be
 			op.Rel = rapid.SampledFrom([]int{0, 0, 1, 1, 1, 2, 3, 4, 4, 5, 6, 7, 8}).Draw(rt, "relsel")
@@ -281,7 +288,10 @@ func (a *vfC42IActor) step(i int, op vfC42IOp) string {
 		a.mutate(op)
 		return ""
 	default:
-		if !a.put(op.Slot) || op.Kind != 4 {
+		if op.Kind == 5 {
+			a.mutate(op)
+		}
+		if !a.put(op.Slot) || op.Kind < 4 {
 			return ""
 		}
 		return a.get(i, a.resolveLen(op))
@@ -484,7 +494,7 @@ func TestVF_C42_ItemBuf(t *testing.T) {
 	defer debug.SetMemoryLimit(debug.SetMemoryLimit(128 << 20))
 	opGen := rapid.Custom(vfC42IDrawOp)
 	vfCheck(t, "C42", func(rt *rapid.T, c *vfCase) string {
-		ops := rapid.SliceOfN(opGen, 4, 40).Draw(rt, "ops")
+		ops := rapid.SliceOfN(opGen, 10, 40).Draw(rt, "ops")
 		putRest := rapid.Bool().Draw(rt, "putRest")
 		c.Describe("itembuf: " + vfC42IRender(ops))
 		vfC42IDrain()
@@ -525,7 +535,7 @@ func TestVF_C42_ItemBufConcurrent(t *testing.T) {
 		scripts := make([][]vfC42IOp, g)
 		var sb strings.Builder
 		for i := range scripts {
-			scripts[i] = rapid.SliceOfN(opGen, 4, 24).Draw(rt, fmt.Sprintf("ops%d", i))
+			scripts[i] = rapid.SliceOfN(opGen, 6, 24).Draw(rt, fmt.Sprintf("ops%d", i))
 			fmt.Fprintf(&sb, "[g%d: %s] ", i, vfC42IRender(scripts[i]))
 		}
 		c.Describe("itembuf concurrent " + sb.String())
